@@ -170,6 +170,16 @@ def execute(scn, L):
         except Exception:
             p = None
 
+        if p == R.REJECT_ORDER:
+            # the tree holds sections in an order no writer may emit (e.g.
+            # a file with a diff and no metadata): serialising it cannot
+            # have succeeded
+            out.violate('C05.serialised-illegal-order', '%s' % op.get('op'),
+                        {'op': {k: v for k, v in op.items()
+                                if k in ('op', 'encoding')},
+                         'bytes': len(data)})
+            return out
+
         if p != R.ACCEPT:
             out.discarded = 'model-rejects-but-serialised'
             return out
